@@ -197,8 +197,6 @@ def child_main(argv):
 
     from ..mon.canary import Canary
 
-    canary = Canary()  # constructions made before anything else happens in this process
-    canary_diffs = []
     items = battery(seed, n)
     res = {}
     if mode == "only":
@@ -209,13 +207,7 @@ def child_main(argv):
         # (caches, counters) built by one order cannot make the next order agree with it
         rng = random.Random(1234)
         order = {"forward": list(range(n)), "reversed": list(range(n))[::-1], "shuffled": rng.sample(range(n), n)}[mode]
-        res[mode] = {}
-        for k_, i in enumerate(order):
-            res[mode][str(i)] = run_item(*items[i])
-            if k_ % 25 == 24 and not canary_diffs:
-                d = canary.check()
-                if d:
-                    canary_diffs = ["after item %d (%s): %s" % (i, items[i][0], "; ".join(d[:4]))]
+        res[mode] = {str(i): run_item(*items[i]) for i in order}
     else:
         inter = {}
         for i in range(n):
@@ -229,11 +221,13 @@ def child_main(argv):
                 continue
             inter[str(i)] = run_item(*items[i])
         res["interleaved"] = inter
-    if not canary_diffs:
-        d = canary.check()
-        if d:
-            canary_diffs = ["at the end of the run: " + "; ".join(d[:4])]
-    res["canary"] = canary_diffs
+    # a fixed set of constructions made and observed AFTER everything else in this process: whatever state the history
+    # left behind shows up here; the parent compares these observations across processes with different histories
+    # (building them first would prime any cache identically everywhere and hide exactly what is looked for)
+    try:
+        res["canary"] = {k: _d(v if isinstance(v, str) else repr(v)) for k, v in Canary().snap.items()}
+    except Exception as e:
+        res["canary"] = {"raised": type(e).__name__ + ": " + str(e)[:80]}
     res["hashseed"] = os.environ.get("PYTHONHASHSEED")
     res["hash_probe"] = hash("probe") & 0xFFFF
     json.dump(res, sys.stdout)
@@ -267,11 +261,7 @@ def run(ctx):
         for r_ in raw[k * len(ORDERS):(k + 1) * len(ORDERS)]:
             merged.update(r_)
         outs.append(merged)
-    for r_, (hs, od) in zip(raw, jobs):
-        ctx.count("monitor.canary_checks")
-        if r_.get("canary"):
-            ctx.violation("output-depends-on-history", "objects built at process start render differently (or were changed) later in the process: %s" % r_["canary"][0],
-                          {"hashseed": str(hs), "order": od, "canary": r_["canary"]})
+    canaries = [(r_.get("canary"), hs, od) for r_, (hs, od) in zip(raw, jobs)]
     ctx.notes["distinct_hash_functions_observed"] = len({o["hash_probe"] for o in raw})
     ctx.notes["processes"] = len(raw)
     ref = outs[0]["forward"]
@@ -309,6 +299,15 @@ def run(ctx):
     sample = sorted(set(sample))
     with ThreadPoolExecutor(max_workers=14) as ex:
         solo = list(ex.map(lambda i: (i, spawn(rng.choice([0, 7, 11]), ctx.seed, n, "only", str(i))["only"][str(i)]), sample))
+    canaries += [(spawn(0, ctx.seed, 1, "only", "0").get("canary"), 0, "nearly-empty history")]
+    ref_c = canaries[-1][0]
+    for c_, hs, od in canaries:
+        ctx.count("monitor.canary_checks")
+        if c_ != ref_c:
+            keys = sorted(k for k in set(c_ or {}) | set(ref_c or {}) if (c_ or {}).get(k) != (ref_c or {}).get(k))
+            ctx.violation("output-depends-on-history", "fixed constructions observed after the battery differ from the same constructions in a fresh process: %s" % keys[:6],
+                          {"hashseed": str(hs), "order": od, "differing": keys})
+            break
     for i, v in solo:
         ctx.count("monitor.solo_runs")
         if v != ref[str(i)]:
